@@ -28,6 +28,10 @@ Cmds == {"validate", "validate-quiet", "validate-json", "validate-sarif",
          "lint", "lint-failwarn", "lint-fix", "parse"}
 
 Sources == {"files", "stdin", "inline"}
+\* the inputs given indirectly: a directory read recursively (-r) whose files lie flat, partly in a sub-directory,
+\* next to a dot-file, next to a file of another extension (neither is an input); or a glob pattern
+TreeSources == {"dir-flat", "dir-nested", "dir-dotfile", "dir-other-ext", "glob"}
+TreeCmds == {"validate", "validate-quiet", "validate-json", "validate-sarif", "lint", "lint-failwarn"}
 
 \* `parse` takes exactly one input; `format --check` on inline SQL is not a check-only mode the
 \* property speaks about (the command prints the formatted text), so it is not constrained here.
@@ -37,6 +41,10 @@ Cases == {[cmd |-> c, src |-> "files", ins |-> f] : c \in Cmds \ {"parse"}, f \i
                   c \in {"validate", "format", "lint", "lint-failwarn", "parse"},
                   s \in {"stdin", "inline"}, a \in Classes}
          \cup {[cmd |-> "format-check", src |-> "stdin", ins |-> <<a>>] : a \in Classes}
+         \* (only validate expands glob patterns itself; lint leaves that to the shell)
+         \cup {[cmd |-> c, src |-> s, ins |-> f] : c \in TreeCmds, s \in TreeSources \ {"glob"}, f \in FileSets}
+         \cup {[cmd |-> c, src |-> "glob", ins |-> f] :
+                  c \in {"validate", "validate-quiet", "validate-json", "validate-sarif"}, f \in FileSets}
 
 VARIABLES case, verdict, done
 vars == <<case, verdict, done>>
@@ -92,5 +100,11 @@ PrintWriteCheckConsistent ==
         LET chk == Verdict([cmd |-> "format-check", src |-> "files", ins |-> f])
             inp == Verdict([cmd |-> "format-inplace", src |-> "files", ins |-> f])
         IN (chk.exit = 0) <=> (inp.exit = 0 /\ inp.must = {})
+\* how the inputs reach the command does not matter: a directory tree or a glob gives the verdict of the same files
+\* named one by one
+SourceIndependent ==
+    (case.src \in TreeSources) =>
+        LET asFiles == Verdict([cmd |-> case.cmd, src |-> "files", ins |-> case.ins])
+        IN verdict.exit = asFiles.exit /\ verdict.reported = asFiles.reported
 ReportNamesExactlyFailures == verdict.reported \subseteq Idx(case.ins, Rejected)
 =============================================================================
